@@ -39,3 +39,28 @@ Definition collect_charge_bayer_any (img : imgrep QcS) (wave : list Qc) (u : Spe
    interpolant of the table expressed in unit u, and 0 outside the table *)
 Definition qe_at (s : Spectrum.spectrum) (u : Spectrum.wunit) (x y : Qc) : Prop :=
   let s' := Spectrum.conv s u in Spectrum.denotes (Spectrum.wave s') (Spectrum.value s') fill0 x y.
+
+(* ---- the Bayer entry point as it is called, oversample <= 0 and the empty pattern included ----
+   Python raises ZeroDivisionError there, which the shared [errkind] does not have: the outcome type adds it.
+   After the three efficiencies and the pattern string have been accepted,
+     nrow = img.shape[1] // oversample           divides by zero for oversample = 0,
+     np.tile(kernel, (nrow // kernel.shape[0], ..))   divides by zero for the empty pattern ('' is accepted by
+                                                      format_bayer_string: a 0 x 0 array),
+   a negative oversample gives negative repetition counts, which np.tile refuses with ValueError. *)
+Inductive outcome (A : Type) := Returned (a : A) | Raised (e : errkind) | RaisedZeroDivision.
+Arguments Returned {A} a. Arguments Raised {A} e. Arguments RaisedZeroDivision {A}.
+Definition lift {A} (r : result A) : outcome A := match r with Ok a => Returned a | Err e => Raised e end.
+Definition omap {A B} (f : A -> B) (o : outcome A) : outcome B :=
+  match o with Returned a => Returned (f a) | Raised e => Raised e | RaisedZeroDivision => RaisedZeroDivision end.
+
+Definition collect_charge_bayer_channels_entry (img : imgrep QcS) (wave : list Qc) (u : Spectrum.wunit)
+    (qr qg qb : qeany) (pat : list Z) (os : Z) : outcome (arr QcS * arr QcS * arr QcS) :=
+  match qe_asarray_any qr wave u, qe_asarray_any qg wave u, qe_asarray_any qb wave u, format_bayer pat with
+  | Ok _, Ok _, Ok _, Ok p =>
+      if (os =? 0) || (pk p =? 0) then RaisedZeroDivision
+      else lift (collect_charge_bayer_channels_any img wave u qr qg qb pat os)
+  | _, _, _, _ => lift (collect_charge_bayer_channels_any img wave u qr qg qb pat os)
+  end.
+Definition collect_charge_bayer_entry (img : imgrep QcS) (wave : list Qc) (u : Spectrum.wunit)
+    (qr qg qb : qeany) (pat : list Z) (os : Z) : outcome (arr QcS) :=
+  omap flatten3 (collect_charge_bayer_channels_entry img wave u qr qg qb pat os).
